@@ -93,7 +93,7 @@ Proof.
   - destruct (first_pot is_matching es) as [e|] eqn:FM; cbn [fst snd].
     + split; [exact Hn|]. split; [exact Hc|]. split.
       * intros x Hx Ha. apply Hnm; [exact Hx|]. rewrite (Hnc x Hx), orb_false_r in Ha. exact Ha.
-      * right. split; [exact Hs|]. split; [exact Hnc|]. intros e' He'. inversion He'; subst e'. cbn [c_outs set_couts]. apply copy_outputs_filled.
+      * right. split; [exact Hs|]. split; [exact Hnc|]. intros e' He'. inversion He'; subst. cbn [c_outs set_couts]. apply copy_outputs_filled.
     + split; [exact Hn|]. split; [exact Hc|]. split.
       * intros x Hx Ha. apply Hnm; [exact Hx|]. rewrite (Hnc x Hx), orb_false_r in Ha. exact Ha.
       * right. split; [exact Hs|]. split; [exact Hnc|]. intros e' He'. discriminate.
